@@ -84,6 +84,30 @@ def gen_cases(ctx):
         f = rng.choice(["sort_by", "max_by", "min_by"])
         cases.append((rng.choice(PREFIXES) + f"{f}(@, &{rng.choice(['a', '@', 'to_array(@)', 'b.c', 'to_string(@)'])})",
                       "[ " + " ".join(rng.choice(["u1", "s61", "n", "[ ]", "{ s61 u1 }", "{ s61 s62 }"]) for _ in range(rng.randrange(1, 4))) + " ]"))
+    # by-functions whose key expression itself evaluates (successful) slices, indexes, nested calls and projections before the key turns out to have
+    # the wrong type: whatever ran inside the expression reference, the error belongs to the by-function's own call
+    byd = "[ { s61 s616263 s62 [ u1 u2 ] s63 { s64 [ s78 ] } } { s61 u5 s62 [ ] s63 { s64 [ ] } } { s61 [ s71 ] s62 s7a s63 n } ]"
+    for f in ["sort_by", "max_by", "min_by"]:
+        for key in ["a[0:2]", "b[:1]", "b[::-1][0]", "@.b[0:1]", "to_array(a)[0:1]", "[a, b][0:1]", "c.d[:1]", "b[1:][0]", "a[::-1]", "b[0]", "not_null(b[5:], a)",
+                    "to_array(a)[-1]", "b[?@ > `1`]", "keys(@)[0:1]", "a[0:2] || a", "length(b[0:1]) && a", "map(&@[0:1], b)", "b[*][0:1]", "sort_by(b, &@)[0:1]", "c.*[0:1]"]:
+            for pre in ("", PREFIXES[3], PREFIXES[5]):
+                cases.append((pre + "%s(@, &%s)" % (f, key), byd))
+                cases.append((pre + "%s(@, &%s) | [0]" % (f, key), byd))
+    # numeric builtins at the edges of every number representation: whatever they do there, a failure must be a located runtime error
+    # (the one listed exception is F14: sum / avg whose exact result is not a finite double)
+    ext = ["i-9223372036854775808", "i-9223372036854775807", "u9223372036854775807", "u9223372036854775808", "u18446744073709551615", "u9007199254740993",
+           "i-9007199254740993", G.f64_bits(-0.0), G.f64_bits(5e-324), G.f64_bits(1.7976931348623157e308), G.f64_bits(-1.7976931348623157e308), G.f64_bits(0.5),
+           G.f64_bits(-9.223372036854775808e18), "u0", "i-1"]
+    for x in ext:
+        for f in ["abs", "ceil", "floor", "to_number", "to_string", "to_array", "type", "not_null"]:
+            for pre in ("", PREFIXES[3]):
+                cases.append((pre + "%s(@)" % f, x))
+                cases.append((pre + "map(&%s(@), @)" % f, "[ " + x + " u1 ]"))
+                cases.append((pre + "sort_by(@, &%s(@))" % f, "[ " + x + " u1 ]"))
+        for f in ["sum", "avg", "max", "min", "sort", "reverse", "length"]:
+            cases.append(("%s(@)" % f, "[ " + x + " ]"))
+            cases.append(("%s(@)" % f, "[ " + x + " " + x + " ]"))
+            cases.append(("%s([@[0], `1`])" % f, "[ " + x + " ]"))
     return cases
 
 
